@@ -565,7 +565,7 @@ func loopSkipsRecursion(c *Ctx, f *ssa.Function, scc map[*ssa.BasicBlock]bool, m
 	}
 	skipped := false
 	start := after(next)
-	walk(start, walkOpts{
+	walk(start, walkOpts{noInline: true,
 		visit: func(i ssa.Instruction, t *tracker) bool {
 			if i == ssa.Instruction(next) {
 				skipped = true
